@@ -18,7 +18,7 @@ RULE = ("postconditions on QuadricTensor.intersect / Conic.intersect(line), tang
         "spheres, cones, cylinders x secants through two rational points, exact tangents (polars of rational points), lines missing the real locus, "
         "lines through the origin and at infinity; single and collection. Non-trivial: matrix with off-diagonal entries or centre off the origin; "
         "distinct by operand digest."
-        " Also: quadrics moved by a transformation / translation after their dual or tangency was asked for, collections with per-element scales between 0.002 and 1000, 3D lines that carry rounding noise (rotated forth and back); dual.dual is the same kind of object as the quadric; the dual taken first and moved afterwards (t*q, q+v, q-v with non-orthogonal t) is the dual of the moved quadric.")
+        " Also: quadrics moved by a transformation / translation after their dual or tangency was asked for, collections with per-element scales between 0.002 and 1000, 3D lines that carry rounding noise (rotated forth and back); dual.dual is the same kind of object as the quadric; the dual taken first and moved afterwards (t*q, q+v, q-v with non-orthogonal t) is the dual of the moved quadric; complex (Gaussian integer) lines of the plane and of space.")
 SHARDS = (8, 16)
 REQUIRED = ["intersect", "tangent", "is_tangent", "polar", "dual"]
 ASSUMPTIONS = ["complex lines in 3D are outside the claimed domain", "secants that nearly coincide with a generator of a cone are ill-conditioned (not judged)"]
